@@ -19,7 +19,7 @@ def compute_LMTD_from_dts(
             f"Invalid temperature differences: ΔT1={delta_T1}, ΔT2={delta_T2}"
         )
     mask_equal = np.isclose(delta_T1, delta_T2, atol=1e-6)
-    lmtd = np.empty_like(delta_T1, dtype=float)
+    lmtd = np.empty(np.broadcast(delta_T1, delta_T2).shape, dtype=float)
     arithmetic = (delta_T1 + delta_T2) / 2
     np.copyto(lmtd, arithmetic, where=mask_equal)
     np.divide(
